@@ -405,7 +405,6 @@ var strAxioms = map[string][]string{
 		"(assert (forall ((a Str)) (! (not (slt a a)) :pattern ((slt a a)))))",
 		"(assert (forall ((a Str) (b Str)) (! (or (slt a b) (slt b a) (= a b)) :pattern ((slt a b)))))",
 		"(assert (forall ((a Str) (b Str)) (! (not (and (slt a b) (slt b a))) :pattern ((slt a b)))))",
-		"(assert (forall ((a Str) (b Str) (c Str)) (! (=> (and (slt a b) (slt b c)) (slt a c)) :pattern ((slt a b) (slt b c)))))",
 	},
 }
 
